@@ -1,6 +1,7 @@
 //! Scenario registry: one module per property.
 use crate::{Scenario, Tier};
 pub mod c01;
+pub mod c17;
 pub mod c19;
 pub mod shared;
 
@@ -11,9 +12,11 @@ pub fn sc(prop: &'static str, tier: Tier, name: &str, desc: &str, max_paths: u64
 pub fn all(seed: u64) -> Vec<Scenario> {
     let mut v = vec![];
     v.extend(c01::scenarios(seed));
+    v.extend(c17::scenarios(seed));
     v.extend(c19::scenarios(seed));
     for p in ["C02", "C03", "C08", "C10"] {
         v.extend(shared::shared(p, seed));
     }
+    v.extend(shared::fees(seed));
     v
 }
